@@ -74,6 +74,7 @@ pub struct Emitter {
     pub samples: Vec<String>,
     pub oracle_failures: Vec<String>,
     stage_path: std::path::PathBuf,
+    pub extra_json: Option<serde_json::Value>,
 }
 
 impl Emitter {
@@ -87,6 +88,7 @@ impl Emitter {
             samples: vec![],
             oracle_failures: vec![],
             stage_path: dir.join("stage.txt"),
+            extra_json: None,
         }
     }
     /// Note what the harness is about to do outside a `case` (building / proving a circuit …):
